@@ -24,9 +24,13 @@ type customErr struct {
 
 func (e *customErr) Error() string { return fmt.Sprintf("c13-custom-%s code=%d", e.Tag, e.Code) }
 
+// Unwrap: the errors of the failing bodies WRAP io.EOF (as read errors of real sources do). An error is an
+// error, whatever it wraps; only the bare io.EOF ends a stream.
+func (e *customErr) Unwrap() error { return io.EOF }
+
 var (
-	errSentinel  = errors.New("c13-sentinel-boom")
-	errSentinel2 = errors.New("c13-sentinel2-boom")
+	errSentinel  = fmt.Errorf("c13-sentinel-boom (%w)", io.EOF)
+	errSentinel2 = fmt.Errorf("c13-sentinel2-boom (%w)", io.EOF)
 	errCustom    = &customErr{Code: 7, Tag: "boom"}
 	errCustom2   = &customErr{Code: 8, Tag: "boom2"}
 	errPanicVal  = errors.New("c13-panic-error-boom")
